@@ -36,7 +36,9 @@ REGRESSION = [("dce/copy_prop_2.ir", ["memcpyprop_reverse", "sroa", "mem2reg"]),
 
 def corpus_files():
     a = [f for f in sorted(glob.glob(os.path.join(REPO, "sway-ir/tests/**/*.ir"), recursive=True)) if "/verify/" not in f]
-    b = sorted(glob.glob(os.path.join(ROOT, "corpus/C04/irgen/*.ir")))
+    # initial IR of test/src/ir_generation/tests/*.sw and of corpus/C04/gen_src/*.sw (small programs written for this
+    # check: u256 arithmetic, functions named after IR keywords, string escapes, nested aggregates), produced by the irgen bin
+    b = sorted(glob.glob(os.path.join(ROOT, "corpus/C04/irgen/*.ir"))) + sorted(glob.glob(os.path.join(ROOT, "corpus/C04/gen/*.ir")))
     return a, b
 
 
@@ -101,10 +103,25 @@ def judge_terms(ctx, terms, judged):
     sizes = [0] * nsh
     for h in todo:                       # greedy balance by text size
         k = sizes.index(min(sizes)); buckets[k].append(h); sizes[k] += len(terms[h]) + 200
-    shards = []
+    shards, layout = [], []
     for b in buckets:
-        shards.append('Definition cs : string := "%s".\nEval vm_compute in (judge_stream cs).' % ";".join(terms[h] for h in b))
+        # several string literals per file, each < 16 KB (a 100 KB literal overflows coqc's stack)
+        chunks, cur, size = [], [], 0
+        for h in b:
+            if cur and size + len(terms[h]) > 16000:
+                chunks.append(cur); cur, size = [], 0
+            cur.append(h); size += len(terms[h]) + 1
+        if cur: chunks.append(cur)
+        layout.append(chunks)
+        shards.append("\n".join('Definition cs%d : string := "%s".\nEval vm_compute in (judge_stream cs%d).' % (k, ";".join(terms[h] for h in ch), k)
+                                for k, ch in enumerate(chunks)))
     res = coq.run_cases(ctx, "c04", "From Coq Require Import String.\nFrom SwayV Require Import Base.Util C04.Model C04.Judge.", shards, timeout=2400)
+    for chunks, r in zip(layout, res):
+        assert len(r) == len(chunks), (len(r), len(chunks))
+        for ch, codes in zip(chunks, r):
+            assert len(codes) == len(ch), (len(codes), len(ch))
+            for h, c in zip(ch, codes): judged[h] = c
+    return
     for b, r in zip(buckets, res):
         codes = r[0]
         assert len(codes) == len(b), (len(codes), len(b))
@@ -152,7 +169,8 @@ def minimise(ctx, binp, case, ff, judged, counter):
 
 def run(ctx):
     ctx.level = "translation_validation"
-    ok, out = coq.check_props(ctx, "C04", extra_targets=["C04/Judge.vo"])
+    coq.build(["C04/Judge.vo"])          # separately: parallel make would interleave its output with the Print Assumptions of Props.v
+    ok, out = coq.check_props(ctx, "C04")
     if not ok:
         ctx.log(out[-3000:])
         ctx.violation("proof", {"theorems": [o for o in ctx.obligations if not o[1]], "log": out[-2000:]},
